@@ -505,8 +505,8 @@ Definition code_of (s : snip) : list instr :=
   | SnSyntax _ => []
   | SnThrow w d =>
       (match d with Some (g, z) => [IDefG (GVar g) (VNum z)] | None => [] end ++ code_where w)%list
-  | SnTryFin => [IPush false; IOut "t"; IPop; IOut "f"; IEndFinally false]
-  | SnTryCatch => [IPush true; IThrow 7; IOut "7"]
+  | SnTryFin => [IPush false; IOut "t"; IPop; IOut "f"; IEndFinally false; IOut "after"]
+  | SnTryCatch => [IPush true; IThrow 7; IOut "7"; IOut "after"]
   | SnFiberOk => [IFiberEnter; IFiberLeave; IOut "5"]
   | SnCaptureOk => [ICall; ICapture 42; ICloseUpv; IRet]
   | SnRange k => IRange (depth_nat k) :: map (fun i => IOut (show_nat i)) (seq 0 (depth_nat k))
